@@ -185,6 +185,20 @@ PROPS = {
         "technique": "Lean 4 sequential model giving the allowed outcome set per fault (gap-free prefix bounded by the fault position + error class) + fault-injecting store around the real FileSource + watchdog for Run not returning + late-handler-call detection",
         "level_text": "PLACEHOLDER", "level_note": LEVEL_NOTE_COMMON, "explanation": "PLACEHOLDER",
     },
+    "C08": {
+        "suites": [("hubsubs", 150, 3000)], "props": ["C08"], "level": "other", "facts": True,
+        "nontrivial": lambda suite, case, impl: sum(1 for l in case["lines"] if l.startswith("impl sub")) >= 3,
+        "rule": "trials = a real, ready ForkableHub holding a 20-block chain; 2-16 goroutines request SourceFromBlockNum (start 5..18) at the same instant while the feeder goroutine pushes 5-20 live blocks; then more blocks are pushed; every running subscriber must have received exactly the New blocks from its start to the final head, contiguous and once; in a third of the trials one subscriber never reads and must be dropped after 100+burst undelivered events while the others are unaffected. distinct = sha1 of header+ops; non-trivial = at least 3 subscribers",
+        "technique": "Lean 4 interleaving model of concurrent registrations (finite reachable set closed under every step, by kernel evaluation) parameterised by lock facts regenerated from /repo by a go/ast extractor + barrier stress of the real hub",
+        "level_text": "PLACEHOLDER", "level_note": LEVEL_NOTE_COMMON, "explanation": "PLACEHOLDER",
+    },
+    "C12": {
+        "suites": [("shutdown", 12, 200)], "props": ["C12"], "level": "other", "facts": True,
+        "nontrivial": lambda suite, case, impl: True,
+        "rule": "each case runs 21 scenarios against the real sources: JoiningSource (Shutdown before Run, from inside the live / file / join factory, inside a handler call, asynchronously), EternalSource (before Run, inside the 1st/2nd factory call, in a handler call, during the restart delay; restart must resume from the last accepted block), MultiplexedSource (2-4 inner sources pushing concurrently: handler failure, asynchronous Shutdown, Shutdown while connecting; handler calls must never overlap, all inner sources must be shut down), hub subscription (before Run, in handler, async) and FileSource (before Run, in handler, async, while waiting for a missing file); watchdog 4 s for Run returning, Terminated, no handler call after Terminated. distinct = sha1 of the case; every case is non-trivial",
+        "technique": "Lean 4 interleaving model of shutter.Shutdown vs the obtain/register/run pattern (reachable set closed under every step + progress measure, kernel-evaluated) with the pattern regenerated from /repo by a go/ast extractor + Shutdown injection at 21 instants of the real sources",
+        "level_text": "PLACEHOLDER", "level_note": LEVEL_NOTE_COMMON, "explanation": "PLACEHOLDER",
+    },
     "C09": {
         "suites": [("hubburst", 2500, 30000)], "props": ["C09"], "level": "other",
         "projection": proj_forkable, "nontrivial": lambda suite, case, impl: any(l.startswith("impl b newirr") for l in case["lines"]),
